@@ -84,10 +84,19 @@ def _build_meta(d: Defn):
         return S[sp[1]].to(S[sp[2]], **kw)
 
     evs = []
-    for pos, specs in d.events:
+    import zlib
+    kwstyle = zlib.crc32(repr((d.events, d.states, "kw")).encode()) % 3 == 1
+    for k, (pos, specs) in enumerate(d.events):
         tl = None
+        kw_done = False
         for sp in specs:
             t = tr(sp)
+            if kwstyle and not kw_done and sp[0] == "e" and len(specs) > 1:
+                # the same event, written partly as `event="ev<k>"` on a transition of its own (registered when its
+                # source state is) and partly as the class attribute `ev<k>`
+                t.add_event(f"ev{k}")
+                kw_done = True
+                continue
             tl = t if tl is None else (tl | t)
         evs.append((pos, tl if tl is not None else TransitionList()))
     for sp in d.loose:
